@@ -100,6 +100,14 @@ def vcgL0 (s t0 : K) : K := s * t0
 def vcgL1 (cx : Bool) (s t1 : K) : K := vcgFctL cx * t1 / s
 def vcgT0 (d m s : K) : K := s * (m - d)
 def vcgT1 (cx : Bool) (s : K) : K := vcgFctT cx * Transc.log s
+/-- the whole pytree in real coordinates: the first `nm` coordinates are mean coordinates (a complex mean has two),
+    the rest inverse-std elements; `sOf i` = the inverse std belonging to coordinate `i`, `cxOf i` = its data is complex -/
+def vcgaussM {k : Nat} (nm : Nat) (sOf : Fin k → K) (cxOf : Fin k → Bool) (t : Fin k → K) : Fin k → K :=
+  fun i => if i.val < nm then vcgM0 (sOf i) (t i) else vcgM1 (cxOf i) (sOf i) (t i)
+def vcgaussL {k : Nat} (nm : Nat) (sOf : Fin k → K) (cxOf : Fin k → Bool) (t : Fin k → K) : Fin k → K :=
+  fun i => if i.val < nm then vcgL0 (sOf i) (t i) else vcgL1 (cxOf i) (sOf i) (t i)
+def vcgaussT {k : Nat} (nm : Nat) (sOf : Fin k → K) (cxOf : Fin k → Bool) (dOf mOf : Fin k → K) : Fin k → K :=
+  fun i => if i.val < nm then vcgT0 (dOf i) (mOf i) (sOf i) else vcgT1 (cxOf i) (sOf i)
 
 /-! ### VariableCovarianceStudentT: parameters (mean, std `sg`) -/
 def vcsCov0 (dof sg : K) : K := (dof + 1) / (dof + 3) / (sg * sg)
@@ -108,6 +116,11 @@ def vcsM0 (dof sg t0 : K) : K := t0 * (dof + 1) / (dof + 3) / (sg * sg)
 def vcsM1 (dof sg t1 : K) : K := t1 * 2 * dof / (dof + 3) / (sg * sg)
 def vcsL0 (dof sg t0 : K) : K := Transc.pow (vcsCov0 dof sg) 0.5 * t0
 def vcsL1 (dof sg t1 : K) : K := Transc.pow (vcsCov1 dof sg) 0.5 * t1
+/-- whole pytree: first `ne` coordinates means, then stds; `th i`, `sg i` = dof / std belonging to coordinate `i` -/
+def vcstudtM {k : Nat} (ne : Nat) (th sg : Fin k → K) (t : Fin k → K) : Fin k → K :=
+  fun i => if i.val < ne then vcsM0 (th i) (sg i) (t i) else vcsM1 (th i) (sg i) (t i)
+def vcstudtL {k : Nat} (ne : Nat) (th sg : Fin k → K) (t : Fin k → K) : Fin k → K :=
+  fun i => if i.val < ne then vcsL0 (th i) (sg i) (t i) else vcsL1 (th i) (sg i) (t i)
 
 /-! ### Categorical.  `grp i` = which distribution coordinate `i` belongs to (one per slice along `axis`, per leaf).
     The repaired code sums over `axis` with `keepdims` (= over the group); the code in the unrepaired tree adds the
